@@ -3,7 +3,7 @@ import re
 from .. import core, progdiff
 from ..gen import Lib, ProgGen
 
-PROOF_MODULES = ['Resynth.Props.C14', 'Resynth.Props.C14Laws', 'Resynth.Props.C14Order']
+PROOF_MODULES = ['Resynth.Props.C14', 'Resynth.Props.C14Laws', 'Resynth.Props.C14Order', 'Resynth.Props.C14Heap']
 
 RULE = ("type-directed random programs compiled by the real binary and the model, plus metamorphic variants of each: "
         "(a) a second let of an existing name appended -> MultipleAssign at that let; (b) a use of an unbound name / "
